@@ -9,7 +9,7 @@ func init() {
 			"(e) the list height is raised only by the CAS in NewLevel whose result table is evaluated (<= installed height, <= MaxLevel); (f) the three tagged-word accessors agree on address formula, shift, mark and atomics — in both build configurations (amd64 and the !amd64 node.go that the baseline never compiles).",
 		Assumptions: []string{"sync/atomic operations are linearizable", "48-bit user-space addresses (the amd64 tag byte)"},
 		Run: func(c *Ctx) {
-			c.Do("C13.a", "L2 publish before index", 6, func() { clInsertPublish(c); clInsertStopsWhenMarked(c) })
+			c.Do("C13.a", "L2 publish before index", 6, func() { clInsertPublish(c); clInsertStopsWhenMarked(c); clTowerLinkedToTop(c) })
 			c.Do("C13.b", "L4 mark never changes the successor", 2, func() { clMarkCAS(c) })
 			c.Do("C13.c", "L5+L1 exactly one deleter wins", 4, func() { clSoftDeleteTable(c) })
 			c.Do("C13.d", "L1+L2 search helps and restarts", 6, func() { clFindPathHelps(c) })
